@@ -128,9 +128,8 @@ package gcsizes
 
 //@ immutable go/build.Default
 // ForArch: word size and maximum alignment of the target (the obsolete amd64p32 excluded)
-//@ ghost archWord() int64
-//@ ghost archMax() int64
+//@ ghost archWord() int64 = (build.Default.GOARCH == "386" || build.Default.GOARCH == "arm" || build.Default.GOARCH == "amd64p32") ? 4 : 8
+//@ ghost archMax() int64 = (build.Default.GOARCH == "386" || build.Default.GOARCH == "arm") ? 4 : 8
 //@ func ForArch
-//@   trusted
 //@   ensures result != nil && !old(allocated(result)) && result.WordSize == archWord() && result.MaxAlign == archMax()
 //@   ensures build.Default.GOARCH != "amd64p32" ==> wfSizes(archWord(), archMax())
